@@ -233,7 +233,7 @@ theorem multSublists_spec (nq : ℕ) (bl : List (Block ℂ)) (hw : ∀ b ∈ bl,
       have hsbl := (List.mem_filter.mp hs).1
       have hsh : hits inds s = true := (List.mem_filter.mp hs).2
       have hne : r ≠ s := fun e => by rw [e, hsh] at hrh; cases hrh
-      haveI : Std.Symm (DisjB) := ⟨fun _ _ h => disjB_symm h⟩
+      have : Std.Symm (DisjB) := ⟨fun _ _ h => disjB_symm h⟩
       exact hd.forall hrbl hsbl hne q hq hqs
     · have : hits inds r = true := by
         simp only [hits, List.any_eq_true]
@@ -472,5 +472,168 @@ theorem gspLoop_spec (nq K : ℕ) (sortedInds : List ℕ) (rec : List (Block ℂ
             simp [bprod, mprod]
           · intro q
             simp only [List.map_append, List.flatten_append, List.mem_append, hm q]
+
+
+theorem embed_mprod {k N : ℕ} (t : Tg k N) (l : List (Matrix (St k) (St k) ℂ)) :
+    t.embed (mprod l) = mprod (l.map t.embed) := by
+  induction l with
+  | nil => simp [mprod, Tg.embed_one]
+  | cons M Ms ih => simp only [mprod, List.map_cons, Tg.embed_mul, ih]
+
+/-- renumbering the qubits of a gate by their rank in `sorted` and placing the register on `sorted`
+gives back the gate on its original qubits -/
+theorem embed_bden_renumber (N : ℕ) (sorted : List ℕ) (hsn : sorted.Nodup) (hsr : ∀ q ∈ sorted, q < N)
+    (U : FMat ℂ) (inds : List ℕ) (hn : inds.Nodup) (hm : ∀ q ∈ inds, q ∈ sorted) :
+    (tgOfList N sorted hsn hsr).embed (embL sorted.length (inds.map fun q => sorted.idxOf q) U) = embL N inds U := by
+  have hn' := nodup_map_idxOf sorted inds hn hm
+  have hr' : ∀ p ∈ inds.map (fun q => sorted.idxOf q), p < sorted.length := by
+    intro p hp
+    obtain ⟨q, hq, rfl⟩ := List.mem_map.mp hp
+    exact List.idxOf_lt_length_of_mem (hm q hq)
+  rw [embL_eq_embed sorted.length _ hn' hr', Tg.embed_comp]
+  apply embed_eq_embL _ inds (by simp)
+  intro j
+  have hj : j.val < inds.length := by simpa using j.isLt
+  have hq : inds[j.val] ∈ sorted := hm _ (List.getElem_mem hj)
+  simp only [Tg.comp, Function.comp, tgOfList, List.getElem_map]
+  rw [List.getElem_idxOf (List.idxOf_lt_length_of_mem hq), List.getD_eq_getElem?_getD,
+    List.getElem?_eq_getElem hj, Option.getD_some]
+
+/-- **`_gate_sequence_product` with the sorting oracle**, for every register size, every list of
+well-formed (matrix, qubit list) gates and every sufficient recursion budget. -/
+theorem gsp_spec (fuel : ℕ) : ∀ (N : ℕ) (gates : List (Block ℂ)), gates ≠ [] → (∀ g ∈ gates, WFBk N g) →
+    gates.length < fuel →
+    ∃ R, gsp opsC ordSorted fuel gates = .ok (R, sortDedup (gates.map (·.2)).flatten) ∧
+      R.n = 2 ^ (sortDedup (gates.map (·.2)).flatten).length ∧
+      embL N (sortDedup (gates.map (·.2)).flatten) R = mprod (gates.map (bden N)) := by
+  induction fuel with
+  | zero => intro N gates _ _ h; omega
+  | succ fuel ih =>
+    intro N gates hne hw hlen
+    have hsn : (sortDedup (gates.map (·.2)).flatten).Nodup := sortDedup_nodup _
+    have hsm : ∀ g ∈ gates, ∀ q ∈ g.2, q ∈ sortDedup (gates.map (·.2)).flatten := by
+      intro g hg q hq
+      rw [mem_sortDedup]
+      exact flatten_mem.mpr ⟨g, hg, hq⟩
+    have hsr : ∀ q ∈ sortDedup (gates.map (·.2)).flatten, q < N := by
+      intro q hq
+      rw [mem_sortDedup] at hq
+      obtain ⟨g, hg, hqg⟩ := flatten_mem.mp hq
+      exact (hw g hg).2.1 q hqg
+    have Hrec : RecSpec (sortDedup (gates.map (·.2)).flatten).length (gates.length - 1) (gsp opsC ordSorted fuel) :=
+      fun s hs hsw hsl => ih _ s hs hsw (by
+        have : 0 < gates.length := List.length_pos_iff.mpr hne
+        omega)
+    have hw' : ∀ g ∈ gates.map (fun g => (g.1, g.2.map fun q => (sortDedup (gates.map (·.2)).flatten).idxOf q)),
+        WFBk (sortDedup (gates.map (·.2)).flatten).length g := by
+      intro g' hg'
+      obtain ⟨g, hg, rfl⟩ := List.mem_map.mp hg'
+      refine ⟨nodup_map_idxOf _ g.2 (hw g hg).1 (hsm g hg), ?_, by simpa using (hw g hg).2.2⟩
+      intro p hp
+      obtain ⟨q, hq, rfl⟩ := List.mem_map.mp hp
+      exact List.idxOf_lt_length_of_mem (hsm g hg q hq)
+    obtain ⟨R, hR, hRn, hRm⟩ := gspLoop_spec _ (gates.length - 1) (sortDedup (gates.map (·.2)).flatten)
+      (gsp opsC ordSorted fuel) Hrec _ [] none
+      (by
+        have : 0 < gates.length := List.length_pos_iff.mpr hne
+        simp; omega) hw'
+      (by
+        intro q hq
+        right
+        have hmem : (sortDedup (gates.map (·.2)).flatten)[q] ∈ (gates.map (·.2)).flatten :=
+          mem_sortDedup.mp (List.getElem_mem hq)
+        obtain ⟨g, hg, hqg⟩ := flatten_mem.mp hmem
+        apply flatten_mem.mpr
+        refine ⟨_, List.mem_map.mpr ⟨g, hg, rfl⟩, ?_⟩
+        simp only [List.mem_map]
+        exact ⟨_, hqg, hsn.idxOf_getElem q hq⟩)
+      rfl (Or.inr (by simpa using hne))
+    refine ⟨R, ?_, hRn, ?_⟩
+    · have : gsp opsC ordSorted (fuel + 1) gates =
+          gspLoop opsC ordSorted (gsp opsC ordSorted fuel) (sortDedup (gates.map (·.2)).flatten).length
+            (sortDedup (gates.map (·.2)).flatten) none
+            (gates.map fun g => (g.1, g.2.map fun q => (sortDedup (gates.map (·.2)).flatten).idxOf q)) := rfl
+      rw [this, hR, range_map_getD]
+    · rw [embL_eq_embed N _ hsn hsr, hRm, embed_mprod, List.nil_append, List.map_map, List.map_map]
+      congr 1
+      apply List.map_congr_left
+      intro g hg
+      simp only [Function.comp, bden]
+      exact embed_bden_renumber N _ hsn hsr g.1 g.2 (hw g hg).1 (hsm g hg)
+
+/-- the compact product of a non-empty list of well-formed gates, with the sorting oracle -/
+theorem compactProduct_spec (N : ℕ) (gates : List (Block ℂ)) (hne : gates ≠ []) (hw : ∀ g ∈ gates, WFBk N g) :
+    ∃ R, compactProduct opsC ordSorted gates = .ok (R, sortDedup (gates.map (·.2)).flatten) ∧
+      R.n = 2 ^ (sortDedup (gates.map (·.2)).flatten).length ∧
+      embL N (sortDedup (gates.map (·.2)).flatten) R = mprod (gates.map (bden N)) :=
+  gsp_spec (gates.length + 1) N gates hne hw (Nat.lt_succ_self _)
+
+
+/-! ## The blocks of a circuit (`propagators(expand=False)` with the gates' qubit lists) -/
+
+/-- the (matrix, qubit list) block of a step; GLOBALPHASE is the full-register scalar matrix on all qubits -/
+noncomputable def opBlock (N : ℕ) : Op ℂ → Block ℂ
+  | .phase c => (FMat.smul opsC c (FMat.ident opsC (2 ^ N)), List.range N)
+  | .gate qs m U => (FMat.ofRows opsC (2 ^ m) U, qs)
+
+theorem encL_range {N : ℕ} (x : St N) : encL (List.range N) x = enc x := by
+  have : (List.range N).map (fun q => (bitsL x).getD q 0) = bitsL x := by
+    apply List.ext_getElem
+    · simp
+    · intro i h1 h2
+      have hi : i < N := by simpa using h2
+      simp [List.getD_eq_getElem?_getD, List.getElem?_eq_getElem (show i < (bitsL x).length by simpa using hi)]
+  simp only [encL, enc, this, List.length_range]
+
+theorem bden_opBlock (N : ℕ) (op : Op ℂ) (hw : WFOp N op) : bden N (opBlock N op) = (toPGate N op).den := by
+  cases op with
+  | phase c =>
+    rw [toPGate_phase_den]
+    ext x y
+    have hc : ∀ i : Fin N, i.val ∉ (opBlock N (.phase c)).2 → x i = y i :=
+      fun i hi => absurd (List.mem_range.mpr i.isLt) hi
+    simp only [bden, embL]
+    rw [if_pos hc]
+    simp only [opBlock, encL_range, FMat.smul, FMat.ident, Matrix.smul_apply, Matrix.one_apply]
+    by_cases h : x = y
+    · subst h; simp [opsC]
+    · have : enc x ≠ enc y := fun e => h (enc_inj e)
+      simp [h, this, opsC]
+  | gate qs m U =>
+    obtain ⟨hn, hr, hm, hU⟩ := hw
+    subst hm
+    simp only [bden, opBlock]
+    rw [embL_eq_embed N qs hn hr, matOf_ofRows_eq_gateMat _ U hU, toPGate_gate_den N qs qs.length U hn hr]
+
+theorem wfbk_opBlock (N : ℕ) (op : Op ℂ) (hw : WFOp N op) : WFBk N (opBlock N op) := by
+  cases op with
+  | phase c => exact ⟨List.nodup_range, fun q hq => List.mem_range.mp hq, by simp [opBlock, FMat.smul, FMat.ident]⟩
+  | gate qs m U =>
+    obtain ⟨hn, hr, hm, _⟩ := hw
+    subst hm
+    exact ⟨hn, hr, rfl⟩
+
+/-- the compact product of a circuit's blocks is the ordered product of the circuit -/
+theorem compact_circuit (N : ℕ) (ops : List (Op ℂ)) (hne : ops ≠ []) (hw : ∀ op ∈ ops, WFOp N op) :
+    ∃ R, compactProduct opsC ordSorted (ops.map (opBlock N)) =
+        .ok (R, sortDedup ((ops.map (opBlock N)).map (·.2)).flatten) ∧
+      embL N (sortDedup ((ops.map (opBlock N)).map (·.2)).flatten) R = denP (ops.map (toPGate N)) := by
+  obtain ⟨R, h1, _, h3⟩ := compactProduct_spec N (ops.map (opBlock N)) (by simpa using hne) (by
+    intro g hg
+    obtain ⟨op, hop, rfl⟩ := List.mem_map.mp hg
+    exact wfbk_opBlock N op (hw op hop))
+  refine ⟨R, h1, ?_⟩
+  rw [h3, denP_eq_mprod, List.map_map, List.map_map]
+  congr 1
+  apply List.map_congr_left
+  intro op hop
+  exact bden_opBlock N op (hw op hop)
+
+/-- both oracles are legal answers of `list(set(a).union(set(b)))`: duplicate-free, same elements -/
+theorem ordSorted_legal (a b : List ℕ) : (ordSorted a b).Nodup ∧ ∀ x, x ∈ ordSorted a b ↔ x ∈ a ∨ x ∈ b :=
+  ⟨sortDedup_nodup _, fun x => by rw [ordSorted, mem_sortDedup, List.mem_append]⟩
+
+theorem ordRev_legal (a b : List ℕ) : (ordRev a b).Nodup ∧ ∀ x, x ∈ ordRev a b ↔ x ∈ a ∨ x ∈ b :=
+  ⟨List.nodup_reverse.mpr (sortDedup_nodup _), fun x => by rw [ordRev, List.mem_reverse, mem_sortDedup, List.mem_append]⟩
 
 end QipVerif.SimKet
